@@ -88,9 +88,9 @@ var c20LocalTimes = [][3]int{{0, 0, 0}, {12, 0, 0}, {23, 59, 59}}
 
 func init() {
 	Registry["C20"] = Spec{
-		Fn:    c20,
-		Level: "exploration",
-		Rule: "sub-spaces enumerated per chunk: every Date (65536) and every Date32 day 1900-01-01..2299-12-31 x fixed zones x 3 local times; DateTime boundaries+strided (quick) / all 2^32 (thorough); DateTime64 p=0..9 boundary/random instants of the documented range; wide-int From*/accessor pairs on boundary+random; IPv4 strided (quick) / all 2^32 (thorough); Interval.Add against an independent civil calendar. Non-trivial = value other than 0; distinct = (sub-space, value) fingerprints",
+		Fn:          c20,
+		Level:       "exploration",
+		Rule:        "sub-spaces enumerated per chunk: every Date (65536) and every Date32 day 1900-01-01..2299-12-31 x fixed zones x 3 local times; DateTime boundaries+strided (quick) / all 2^32 (thorough); DateTime64 p=0..9 boundary/random instants of the documented range; wide-int From*/accessor pairs on boundary+random; IPv4 strided (quick) / all 2^32 (thorough); Interval.Add against an independent civil calendar. Non-trivial = value other than 0; distinct = (sub-space, value) fingerprints",
 		Assumptions: []string{"oracle is an independent days<->civil implementation cross-checked against package time on every Date/Date32 day", "Go's time.Time arithmetic (Unix, Date, AddDate) is trusted for constructing inputs"},
 		MinDistinct: 1000,
 		Exhaustive:  func(tier string) bool { return true },
